@@ -1,4 +1,5 @@
 import WV.Proofs.C04
+import WV.Proofs.C04_Net
 
 /-!
 C04 — a completed transfer is byte-exact; success is never reported otherwise.
@@ -6,10 +7,12 @@ C04 — a completed transfer is byte-exact; success is never reported otherwise.
 All statements are about the executable model in `WV/Model/C04.lean` (the functions the driver
 runs), for every source content and size, every chunk size `k > 0`, every announced size, every
 interleaving of arriving records / attaching the consumer / losing the connection, and every hash
-and zip codec satisfying the stated ideal property.  The transit stream is the C06 hypothesis:
-the records handed to the receiver are a prefix of the records the sender wrote
-(`records evs <+: (sendFile k src).records`); the reverse direction delivers the receiver's first
-record or nothing (`ackSeen`).
+and zip codec satisfying the stated ideal property.  In the first part the transit stream is a
+hypothesis — the records handed to the receiver are a prefix of the records the sender wrote
+(`records evs <+: (sendFile k src).records`), the reverse direction delivers the receiver's first
+record or nothing (`ackSeen`).  The `net_*` theorems further down discharge that hypothesis from
+C06: they are about the Xfer model composed with C06's `Conn` model on both ends and hold for
+every adversary schedule C06 quantifies over, under C06's `IdealFor` only.
 -/
 namespace WV.Props.C04
 open WV WV.C04 WV.Proofs.C04
@@ -263,10 +266,251 @@ theorem honest_run_succeeds {τ : Type} (H : Hash) (Z : Zip τ) (k : Nat) (hk : 
   have : (runRx H Z src.length false stale evs).spool = src := hsp
   simp [checkAck, this, (sendFile_spec k hk src).2]
 
+/-! ## end to end over the C06 record layer: the channel hypothesis discharged
+
+The composed system (`WV/Proofs/C04_Net.lean`): the Xfer receiver on C06's receiving `Conn`, the
+ack read on C06's sending-side `Conn`, an arbitrary adversary in between.  Quantified over every
+byte sequence and chunking fed to the receiving connection, every moment of attaching the consumer
+and of reporting the loss (`List NetOp`), and every C06 operation sequence at the sender's
+connection (`List C06.Op`).  Assumptions: C06's `IdealFor` for the direction concerned (only the
+peer's sealings open under the receive key), the code's own 2^192 record-count limit, collision
+freedom of the hash where the statement needs it, and the json codec of the ack as an interface. -/
+
+open WV.C04Net in
+/-- **`receiver_success_exact` over C06**: whatever the network does to the ciphertext stream, a
+    receiver that reports success has written exactly the sender's bytes -/
+theorem net_receiver_success_exact {τ : Type} (E : C06.Env) (H : Hash) (Z : Zip τ) (k : Nat) (hk : 0 < k) (src : Bytes)
+    (stale : Option Bytes) (leftover : Bytes) (ops : List NetOp)
+    (hcount : (sendFile k src).records.length ≤ 256 ^ 24)
+    (hid : C06.IdealFor E.box (C06.receiverRecordKey E false) (sendFile k src).records)
+    (hok : (netRx E H Z src.length false stale leftover ops).result = .success) :
+    (netRx E H Z src.length false stale leftover ops).final = some (.file src) ∧
+    (netRx E H Z src.length false stale leftover ops).tmpExists = false := by
+  unfold netRx at hok ⊢
+  exact receiver_success_exact H Z k hk src stale _ (net_channel E _ _ hcount hid leftover ops) hok
+
+open WV.C04Net in
+/-- **`sender_success_needs_matching_ack` over C06**: if the sender reports success, then — whatever
+    happened on the wire back and at its connection — the receiver really finished, and sent exactly
+    one ack, `"ok"`, carrying the hash of what the sender hashed -/
+theorem net_sender_success_needs_matching_ack {τ : Type} (E : C06.Env) (H : Hash) (Z : Zip τ) (C : AckCodec) (hC : C.Ideal)
+    (hashed : Bytes) (xfersize : Nat) (dirMode : Bool) (stale : Option Bytes) (leftoverR leftoverS : Bytes)
+    (opsR : List NetOp) (opsS : List C06.Op)
+    (hidBack : C06.IdealFor E.box (C06.receiverRecordKey E true)
+      (ackRecords C (netRx E H Z xfersize dirMode stale leftoverR opsR)))
+    (hsender : checkAck H hashed (senderAck C (C06.run E (C06.Conn.init true leftoverS) opsS)) = .success) :
+    let s := netRx E H Z xfersize dirMode stale leftoverR opsR
+    s.result = .success ∧ s.acks = [.dict (some "ok") (.digest (H.sha hashed))] := by
+  intro s
+  have hlen : (ackRecords C s).length ≤ 256 ^ 24 := by
+    have h1 : s.acks.length ≤ 1 := acks_length_le_one H Z xfersize dirMode stale _
+    have h2 : (1 : Nat) ≤ 256 ^ 24 := by decide
+    simpa [ackRecords] using Nat.le_trans h1 h2
+  obtain ⟨d, hd⟩ := senderAck_cases E C s (acks_roundtrip H Z C hC xfersize dirMode stale _) hlen hidBack leftoverS opsS
+  rw [hd] at hsender
+  obtain ⟨sha, hseen, hsha⟩ := (sender_success_needs_matching_ack H _ _).mp hsender
+  have hinv := Proofs.C04.inv_run H Z xfersize dirMode stale (rxTrace E xfersize (C06.Conn.init false leftoverR) opsR)
+  have hacks : s.acks ≠ [] := by
+    intro h0
+    unfold ackSeen at hseen
+    cases d <;> simp [h0] at hseen
+  have hnp : s.result ≠ .pending := fun hp => hacks (Proofs.C04.inv_pending hinv hp).2.1
+  have hdone := Proofs.C04.inv_done hinv hnp
+  cases hr : s.result with
+  | pending => exact absurd hr hnp
+  | failed e => exact absurd (hdone.bad e hr).2.1 hacks
+  | success =>
+    obtain ⟨_, _, _, _, a5, _⟩ := hdone.ok hr
+    refine ⟨rfl, ?_⟩
+    have hseen' : some (AckMsg.dict (some "ok") (.digest (H.sha s.spool))) = some (AckMsg.dict (some "ok") sha) := by
+      unfold ackSeen at hseen
+      cases d
+      · simp at hseen
+      · have a5' : s.acks = [.dict (some "ok") (.digest (H.sha s.spool))] := a5
+        simpa [a5'] using hseen
+    have hsha' : sha = .digest (H.sha s.spool) := by cases hseen'; rfl
+    rcases hsha with h1 | h1
+    · rw [h1] at hsha'; exact absurd hsha' (by simp)
+    · rw [h1] at hsha'
+      have a5' : s.acks = [.dict (some "ok") (.digest (H.sha s.spool))] := a5
+      rw [a5', ← hsha']
+
+open WV.C04Net in
+/-- **`both_success_exact` over C06**: the sender reports success ⇒ the receiver reported success and
+    its final file is byte for byte what the sender read — for every adversary on both directions,
+    every announced size, every stale tmp; needs the ack direction's AEAD, the hash, the codec,
+    and nothing about the data direction at all -/
+theorem net_both_success_exact {τ : Type} (E : C06.Env) (H : Hash) (hH : H.Ideal) (Z : Zip τ) (C : AckCodec) (hC : C.Ideal)
+    (k : Nat) (hk : 0 < k) (src : Bytes) (xfersize : Nat) (stale : Option Bytes) (leftoverR leftoverS : Bytes)
+    (opsR : List NetOp) (opsS : List C06.Op)
+    (hidBack : C06.IdealFor E.box (C06.receiverRecordKey E true)
+      (ackRecords C (netRx E H Z xfersize false stale leftoverR opsR)))
+    (hsender : checkAck H (sendFile k src).hashed (senderAck C (C06.run E (C06.Conn.init true leftoverS) opsS)) = .success) :
+    (netRx E H Z xfersize false stale leftoverR opsR).result = .success ∧
+    (netRx E H Z xfersize false stale leftoverR opsR).final = some (.file src) := by
+  have hlen : (ackRecords C (netRx E H Z xfersize false stale leftoverR opsR)).length ≤ 256 ^ 24 := by
+    have h1 := acks_length_le_one H Z xfersize false stale (rxTrace E xfersize (C06.Conn.init false leftoverR) opsR)
+    have h2 : (1 : Nat) ≤ 256 ^ 24 := by decide
+    simpa [ackRecords, netRx] using Nat.le_trans h1 h2
+  obtain ⟨d, hd⟩ := senderAck_cases E C _ (acks_roundtrip H Z C hC xfersize false stale _) hlen hidBack leftoverS opsS
+  rw [hd] at hsender
+  unfold netRx at ⊢
+  try unfold netRx at hsender
+  exact sender_success_exact H hH Z k hk src xfersize stale _ d hsender
+
+open WV.C04Net in
+/-- **`cut_no_success_no_final` over C06**: if the receiving connection accepted fewer than
+    `xfersize` bytes of records — because the stream was cut, or because C06 dropped it at the first
+    frame that is not the honest next one — then the receiver does not report success, no final
+    destination exists (file mode: only `*.tmp`), no ack was sent, and the sender, whatever reaches
+    its connection, ends in ConnectionClosed, not success -/
+theorem net_cut_no_success_no_final {τ : Type} (E : C06.Env) (H : Hash) (Z : Zip τ) (C : AckCodec) (hC : C.Ideal)
+    (xfersize : Nat) (dirMode : Bool) (stale : Option Bytes) (leftoverR leftoverS : Bytes)
+    (opsR : List NetOp) (opsS : List C06.Op)
+    (hshort : (connRun E xfersize (C06.Conn.init false leftoverR) opsR).app.surfaced.flatten.length < xfersize)
+    (hidBack : C06.IdealFor E.box (C06.receiverRecordKey E true) []) :
+    let s := netRx E H Z xfersize dirMode stale leftoverR opsR
+    s.result ≠ .success ∧ s.final = none ∧ s.tmpExists = (!dirMode) ∧ s.acks = [] ∧
+    (∀ hashed, checkAck H hashed (senderAck C (C06.run E (C06.Conn.init true leftoverS) opsS)) = .failed .connectionClosed) := by
+  intro s
+  have hshort' : (records (rxTrace E xfersize (C06.Conn.init false leftoverR) opsR)).flatten.length < xfersize := by
+    rw [net_records]; exact hshort
+  obtain ⟨h1, h2, h3, h4, h5⟩ := cut_no_success_no_final H Z xfersize dirMode stale _ hshort'
+  refine ⟨h1, h2, h3, h4, ?_⟩
+  intro hashed
+  have hacks : ackRecords C s = [] := by
+    have : s.acks = [] := h4
+    simp [ackRecords, this]
+  obtain ⟨d, hd⟩ := senderAck_cases E C s (acks_roundtrip H Z C hC xfersize dirMode stale _) (by rw [hacks]; simp)
+    (by rw [hacks]; exact hidBack) leftoverS opsS
+  rw [hd]
+  exact h5 hashed d
+
+open WV.C04Net in
+/-- … and once the consumer is attached, reporting the loss makes the receiver fail (ConnectionClosed) -/
+theorem net_cut_then_lost_fails {τ : Type} (E : C06.Env) (H : Hash) (Z : Zip τ) (xfersize : Nat) (dirMode : Bool)
+    (stale : Option Bytes) (leftover : Bytes) (ops : List NetOp) (hatt : hasAttach ops = true)
+    (hshort : (connRun E xfersize (C06.Conn.init false leftover) ops).app.surfaced.flatten.length < xfersize) :
+    (netRx E H Z xfersize dirMode stale leftover (ops ++ [.lost])).result = .failed .connectionClosed := by
+  unfold netRx
+  rw [trace_append_lost]
+  apply cut_then_lost_fails
+  · rw [net_records]; exact hshort
+  · have hinv := Proofs.C04.inv_run H Z xfersize dirMode stale (rxTrace E xfersize (C06.Conn.init false leftover) ops)
+    exact Proofs.C04.inv_started hinv (by rw [trace_sawConnect]; exact hatt)
+
+open WV.C04Net in
+/-- C06's *tamper ⇒ prefix then drop* feeds the previous two: the honest frames of the first `j`
+    records, then any complete frame that is not the honest frame `j` (altered, replayed, reordered,
+    from the other direction, invented), then anything, in any chunking, after the consumer was
+    attached: the connection hangs up having accepted exactly `rs.take j`; if that is short of
+    `xfersize`, the receiver is still waiting with only its tmp file, and fails when the loss is reported -/
+theorem net_first_bad_frame_no_success {τ : Type} (E : C06.Env) (H : Hash) (Z : Zip τ) (rs : List Bytes)
+    (hcount : rs.length ≤ 256 ^ 24) (hsz : C06.SizesOK rs)
+    (hid : C06.IdealFor E.box (C06.receiverRecordKey E false) rs)
+    (xfersize : Nat) (dirMode : Bool) (stale : Option Bytes)
+    (j : Nat) (hj : j ≤ rs.length) (e tail : Bytes) (he : e.length < 256 ^ 4)
+    (hbad : ∀ h : j < rs.length, e ≠ C06.blob E (C06.receiverRecordKey E false) j rs[j])
+    (hfew : (rs.take j).flatten.length < xfersize)
+    (x0 : Bytes) (cs : List Bytes)
+    (hwire : x0 ++ cs.flatten = C06.wireOf E (C06.receiverRecordKey E false) 0 (rs.take j) ++ (C06.frame e ++ tail)) :
+    let ops := NetOp.attach :: (x0 :: cs).map NetOp.data
+    (connRun E xfersize (C06.Conn.init false) ops).state = .hungUp ∧
+    (connRun E xfersize (C06.Conn.init false) ops).app.surfaced = rs.take j ∧
+    (netRx E H Z xfersize dirMode stale [] ops).result = .pending ∧
+    (netRx E H Z xfersize dirMode stale [] ops).final = none ∧
+    (netRx E H Z xfersize dirMode stale [] ops).tmpExists = (!dirMode) ∧
+    (netRx E H Z xfersize dirMode stale [] (ops ++ [.lost])).result = .failed .connectionClosed := by
+  intro ops
+  have hrun : connRun E xfersize (C06.Conn.init false) ops =
+      C06.feed E { C06.Conn.init false with app := (C06.connectConsumer C06.App.init (some xfersize)).1 } (x0 :: cs) := by
+    show connRun E xfersize (C06.Conn.init false) (.attach :: (x0 :: cs).map NetOp.data) = _
+    rw [connRun_attach_feed, attach_fresh]
+  obtain ⟨f1, f2⟩ := attach_fresh_facts xfersize
+  obtain ⟨d1, _, _, d4⟩ := Props.C06.first_bad_frame_drops E false rs hcount hsz hid j hj e tail he hbad
+    (C06.connectConsumer C06.App.init (some xfersize)).1 x0 cs hwire
+  have hsurf : (connRun E xfersize (C06.Conn.init false) ops).app.surfaced = rs.take j := by
+    rw [hrun, d4, C06.emit_lose_surfaced, (C06.foldl_recordReceived_spec (rs.take j) _ f2).1, f1]
+    simp
+  have hshort : (connRun E xfersize (C06.Conn.init false []) ops).app.surfaced.flatten.length < xfersize := by
+    have : (C06.Conn.init false [] : C06.Conn) = C06.Conn.init false := rfl
+    rw [this, hsurf]; exact hfew
+  have hatt : hasAttach ops = true := rfl
+  have hnl : hasLost ops = false := by
+    show hasLost (.attach :: (x0 :: cs).map NetOp.data) = false
+    simp only [hasLost]
+    exact hasLost_map_data (x0 :: cs)
+  have hinv := Proofs.C04.inv_run H Z xfersize dirMode stale (rxTrace E xfersize (C06.Conn.init false []) ops)
+  have hshort' : (records (rxTrace E xfersize (C06.Conn.init false []) ops)).flatten.length < xfersize := by
+    rw [net_records]; exact hshort
+  have hpend : (netRx E H Z xfersize dirMode stale [] ops).result = .pending :=
+    Proofs.C04.inv_short_nolost hinv hshort' (by rw [trace_sawLost]; exact hnl)
+  obtain ⟨p1, _, p3⟩ := Proofs.C04.inv_pending hinv hpend
+  refine ⟨?_, hsurf, hpend, p1, p3, ?_⟩
+  · rw [hrun]; exact d1
+  · exact net_cut_then_lost_fails E H Z xfersize dirMode stale [] ops hatt hshort
+
+open WV.C04Net in
+/-- the hypotheses are met by every honest run over C06: the sender's records, sealed and framed by
+    its C06 connection, arriving in any chunking after the consumer was attached ⇒ the receiver
+    succeeds with exactly the sender's bytes -/
+theorem net_honest_run_succeeds {τ : Type} (E : C06.Env) (H : Hash) (Z : Zip τ) (k : Nat) (hk : 0 < k) (hk2 : k + 40 < 256 ^ 4)
+    (src : Bytes) (stale : Option Bytes)
+    (hcount : (sendFile k src).records.length ≤ 256 ^ 24)
+    (hid : C06.IdealFor E.box (C06.senderRecordKey E true) (sendFile k src).records)
+    (cs : List Bytes)
+    (hcs : cs.flatten = (C06.sendMany E (C06.Conn.init true) (sendFile k src).records).1.app.wire) :
+    let s := netRx E H Z src.length false stale [] (NetOp.attach :: cs.map NetOp.data)
+    s.result = .success ∧ s.final = some (.file src) ∧ s.tmpExists = false := by
+  intro s
+  have hsz : C06.SizesOK (sendFile k src).records := by
+    intro r hr
+    have := sendFile_sizes k src r hr
+    omega
+  obtain ⟨f1, f2⟩ := attach_fresh_facts src.length
+  obtain ⟨_, r2⟩ := Props.C06.roundtrip E true (sendFile k src).records hcount hsz hid
+    (C06.connectConsumer C06.App.init (some src.length)).1 f2 cs hcs
+  simp only at r2
+  have hsurf : (connRun E src.length (C06.Conn.init false []) (NetOp.attach :: cs.map NetOp.data)).app.surfaced =
+      (sendFile k src).records := by
+    have : (C06.Conn.init false [] : C06.Conn) = C06.Conn.init false := rfl
+    rw [this, connRun_attach_feed, attach_fresh]
+    have hb : (!true) = false := rfl
+    rw [hb] at r2
+    rw [r2, f1]; simp
+  have hall : records (rxTrace E src.length (C06.Conn.init false []) (NetOp.attach :: cs.map NetOp.data)) =
+      (sendFile k src).records := by rw [net_records]; exact hsurf
+  have hconn : Proofs.C04.sawConnect (rxTrace E src.length (C06.Conn.init false []) (NetOp.attach :: cs.map NetOp.data)) = true := by
+    rw [trace_sawConnect]; rfl
+  have hnl : Proofs.C04.sawLost (rxTrace E src.length (C06.Conn.init false []) (NetOp.attach :: cs.map NetOp.data)) = false := by
+    rw [trace_sawLost]
+    simp only [hasLost]
+    exact hasLost_map_data cs
+  obtain ⟨a, b, c, _⟩ := honest_run_succeeds H Z k hk src stale _ hall hconn hnl
+  exact ⟨a, b, c⟩
+
 /-! ## the hypotheses are satisfiable: concrete instances and runs -/
 
 /-- the driver's hash and zip codec satisfy the ideal properties -/
 example : toyHash.Ideal ∧ toyZip.Ideal := ⟨fun _ _ h => h, fun _ => rfl⟩
+
+/-- an ack codec that round-trips the honest receiver's acks -/
+example : (⟨fun a => match a with | .dict _ (.digest d) => d | _ => [], fun b => .dict (some "ok") (.digest b)⟩ :
+    WV.C04Net.AckCodec).Ideal := fun _ => rfl
+
+/-- a concrete world for the composed system: the 5-byte file in 2-byte chunks, sealed by an ideal
+    box for exactly these records, the whole honest wire image arriving in one piece after the
+    consumer was attached -/
+def exSrc : Bytes := [1, 2, 3, 4, 5]
+def exNetEnv : C06.Env :=
+  { box := C06.idealBox Gen.C06.ctx_sender_sendkey (sendFile 2 exSrc).records, hkdf := fun _ _ info => info, transitKey := [7] }
+
+example :
+    let wire := (C06.sendMany exNetEnv (C06.Conn.init true) (sendFile 2 exSrc).records).1.app.wire
+    (WV.C04Net.netRx exNetEnv toyHash toyZip exSrc.length false none []
+      (WV.C04Net.NetOp.attach :: [wire].map WV.C04Net.NetOp.data)).result = .success :=
+  (net_honest_run_succeeds exNetEnv toyHash toyZip 2 (by decide) (by decide) exSrc none (by decide)
+    (C06.idealBox_ideal _ _) [_] (by simp)).1
 
 /-- a 5-byte file in 2-byte chunks, consumer attached after the first record -/
 example :
